@@ -172,12 +172,17 @@ func genMerged(r *Rand, traceLog bool) (Input, []string) {
 	}
 	sort.Slice(slots, func(a, b int) bool { return slots[a] < slots[b] })
 	ncomm := r.Range(1, 3)
+	base := 6
+	if r.Chance(1, 8) {
+		base = 2043 // lengths around MAX_VALIDATORS_PER_COMMITTEE (2048), some beyond it
+		fam["merged-big-committees"] = true
+	}
 	size := make([][]uint64, nslots) // size[k][c]
 	for k := range size {
 		size[k] = make([]uint64, ncomm)
 		for c := range size[k] {
 			// 7, 8, 9 straddle a byte of the bitlist
-			size[k][c] = uint64(6 + 3*c + r.Intn(3))
+			size[k][c] = uint64(base + 3*c + r.Intn(3))
 		}
 	}
 	// the committee of the first validators of the first two slots has different lengths there
@@ -351,9 +356,18 @@ func gen(r *Rand, traceLog bool) (History, []string) {
 	}
 	ncomm := r.Range(1, 4)
 	d := Duty{Slot: slot}
+	// 1/8: committees of realistic and of excessive size (MAX_VALIDATORS_PER_COMMITTEE is 2048: no
+	// attestation is made for a validator whose committee is said to be larger)
+	big := r.Chance(1, 8)
+	bigSizes := []uint64{128, 509, 2047, 2048, 2049, 4100}
+	bigOff := r.Intn(len(bigSizes))
 	for c := 0; c < ncomm; c++ {
 		// committee indices need not be 0..k-1; sizes all different (7, 8, 9 straddle a byte of the bitlist)
-		d.Sizes = append(d.Sizes, [2]uint64{uint64(2*c + r.Intn(2)), uint64(5 + 3*c + r.Intn(3))})
+		size := uint64(5 + 3*c + r.Intn(3))
+		if big {
+			size = bigSizes[(bigOff+c)%len(bigSizes)]
+		}
+		d.Sizes = append(d.Sizes, [2]uint64{uint64(2*c + r.Intn(2)), size})
 	}
 	sortedDuty := r.Chance(1, 3) // as MergeDuties delivers: by committee, then validator
 	type ent struct{ v, k uint64 }
@@ -433,6 +447,14 @@ func gen(r *Rand, traceLog bool) (History, []string) {
 	}
 	if ncomm > 1 {
 		fam["several-committees"] = true
+	}
+	if big {
+		fam["big-committees"] = true
+		for _, sz := range d.Sizes {
+			if sz[1] > 2048 {
+				fam["oversize-committee"] = true
+			}
+		}
 	}
 	if sortedDuty {
 		fam["duty-sorted"] = true
